@@ -31,12 +31,15 @@ class SolverUnknown(EngineAbort):
 
 
 QUERY_TIMEOUT_MS = 120000
+FAST_MS = 1500
 
 
 class Ctx:
     def __init__(self, plan=None, max_decisions=4000, timeout_ms=None):
         self.solver = z3.Solver()
-        self.solver.set("timeout", timeout_ms or QUERY_TIMEOUT_MS)
+        self.timeout_ms = timeout_ms or QUERY_TIMEOUT_MS
+        self.last_solver = self.solver
+        self.slow_queries = 0
         self.trail = []          # [taken: bool, sibling_done: bool]
         self.plan = plan or []
         self.queries = 0
@@ -62,11 +65,36 @@ class Ctx:
         self.model = None
 
     def check(self, *extra):
+        """incremental default solver first (short budget); on timeout the same formula goes to a
+        one-shot bit-blasting pipeline (simplify, ackermannize_bv, bit-blast, sat), which decides
+        the wide modular-arithmetic + UF queries of the BIP32 harnesses 10-100x faster; last resort
+        is the default solver with the full budget.  Only sat/unsat answers are ever used."""
         t0 = time.time()
         self.queries += 1
-        r = self.solver.check(*extra)
+        self.last_solver = self.solver
+        self.solver.set("timeout", FAST_MS)
+        r = str(self.solver.check(*extra))
+        if r == "unknown":
+            r = self._slow_check(extra)
         self.solver_time += time.time() - t0
-        return str(r)
+        return r
+
+    def _slow_check(self, extra):
+        self.slow_queries += 1
+        try:
+            s2 = z3.Then("simplify", "ackermannize_bv", "simplify", "bit-blast", "sat").solver()
+            s2.set("timeout", self.timeout_ms)
+            s2.add(*self.solver.assertions())
+            s2.add(*extra)
+            r = str(s2.check())
+            if r in ("sat", "unsat"):
+                self.last_solver = s2
+                return r
+        except z3.Z3Exception:
+            pass
+        self.solver.set("timeout", self.timeout_ms)
+        self.last_solver = self.solver
+        return str(self.solver.check(*extra))
 
     def newvar(self, prefix, sort):
         self.fresh += 1
@@ -133,7 +161,7 @@ class Ctx:
         if val:
             self._add_keep(cond)
         else:
-            mm = self.solver.model() if ro == "sat" else None
+            mm = self.last_solver.model() if ro == "sat" else None
             self.add(cond)
             self.model = mm
         return True
@@ -141,7 +169,7 @@ class Ctx:
     def _model(self):
         if self.model is None:
             if self.check() == "sat":
-                self.model = self.solver.model()
+                self.model = self.last_solver.model()
         return self.model
 
     def _add_keep(self, c):
@@ -200,7 +228,7 @@ class Ctx:
             if r == "unknown":
                 self.unknown.append("check:" + label)
                 return None
-            m = self.solver.model()
+            m = self.last_solver.model()
             v = {"label": label, "witness": self.model_inputs(m)}
             try:
                 from . import env as _env
@@ -222,7 +250,7 @@ class Ctx:
         r = self.check()
         if r != "sat":
             raise Infeasible() if r == "unsat" else SolverUnknown(why)
-        v = self.solver.model().eval(e, model_completion=True)
+        v = self.last_solver.model().eval(e, model_completion=True)
         self.add(e == v)
         self.incomplete.append(why)
         return v
@@ -274,6 +302,7 @@ def _eval_input(model, kind, payload):
 
 
 CTX = None
+PATH_HOOKS = []      # callables run at the start of every path (reset of process-wide state)
 
 
 def ctx():
@@ -310,6 +339,8 @@ def explore(fn, max_paths=20000, max_decisions=4000, stop_after_violations=3, ti
     while True:
         c = Ctx(plan=plan, max_decisions=max_decisions, timeout_ms=timeout_ms)
         CTX = c
+        for h in PATH_HOOKS:
+            h()
         try:
             r = fn(c)
             res.feasible_paths += 1
